@@ -33,7 +33,7 @@ ASSUMPTIONS = [
 ]
 
 STUB = os.path.join(core.VERIF, "tools", "fake-eyaml")
-KINDS = ("secret", "folded", "spaced", "split", "plain", "xenc", "lowenc",
+KINDS = ("secret", "folded", "spaced", "split", "tabbed", "plain", "xenc", "lowenc",
          "int", "null")
 SKELETONS = ["hash2", "hash3", "list3", "nested", "deep"]
 CASES = []
@@ -73,6 +73,11 @@ def slot_text(kind, plain, key, indent):
         lines = [enc[:2], enc[2:20]] + [enc[i:i + 30]
                                         for i in range(20, len(enc), 30)]
         return " >\n" + "\n".join(pad + l for l in lines)
+    if kind == "tabbed":
+        # a folded value whose content starts with a TAB (white-space, too)
+        enc = fake_eyaml.encrypt(plain, key)
+        lines = [enc[i:i + 30] for i in range(0, len(enc), 30)]
+        return " >\n" + pad + "\t" + ("\n" + pad).join(lines)
     if kind == "spaced":
         enc = fake_eyaml.encrypt(plain, key)
         return ' "  %s %s"' % (enc[:12], enc[12:])
@@ -211,7 +216,8 @@ def plan(tier):
     nslots = {"hash2": 2, "hash3": 3, "list3": 3, "nested": 3, "deep": 2}
     for skel in SKELETONS:
         kinds_pool = KINDS if (tier != "quick" or nslots[skel] == 2) else (
-            "secret", "folded", "spaced", "split", "plain", "xenc", "null")
+            "secret", "folded", "spaced", "split", "tabbed", "plain", "xenc",
+            "null")
         for kinds in itertools.product(kinds_pool, repeat=nslots[skel]):
             CASES.append(("grid", skel, kinds))
     for i in range(N_ANCHORED):
@@ -290,7 +296,7 @@ def value_at(doc, pos):
 
 
 def is_secret_kind(kind):
-    return kind in ("secret", "folded", "spaced", "split")
+    return kind in ("secret", "folded", "spaced", "split", "tabbed")
 
 
 def check_multi(st, wd, kf, files, backup):
